@@ -16,6 +16,8 @@ from sourmash.index import (LinearIndex, MultiIndex, LazyLinearIndex, ZipFileLin
 from sourmash.sbt import SBT
 from sourmash.sbtmh import create_sbt_index
 from sourmash.lca.lca_db import LCA_Database
+from sourmash.index.sqlite_index import SqliteIndex, LCA_SqliteDatabase
+from sourmash.sbtmh import load_sbt_index
 from sourmash.picklist import SignaturePicklist
 from sourmash.manifest import CollectionManifest
 from sourmash.search import GatherDatabases, prefetch_database
@@ -58,6 +60,10 @@ class Differs(Exception):
 
 class UnknownOp(Exception):
     pass
+
+
+class ViewChanged(Exception):
+    """a save changed what the saved collection answers"""
 
 
 def canon(x):
@@ -280,9 +286,13 @@ def kind_of(v):
     if isinstance(v, StandaloneManifestIndex):
         return "standalone"
     if isinstance(v, SBT):
-        return "sbt"
+        return "sbtdisk" if getattr(v, "_own_disk", False) else "sbt"
     if isinstance(v, LCA_Database):
         return "lca"
+    if isinstance(v, LCA_SqliteDatabase):
+        return "lcasql"
+    if isinstance(v, SqliteIndex):
+        return "sqlite"
     return "?"
 
 
@@ -311,8 +321,6 @@ def show_picks(pls):
 def show_sigs(v):
     try:
         return "[" + "/".join(sorted(show_sig(x) for x in v.signatures())) + "]"
-    except ValueError:
-        return "!ValueError"
     except Exception as e:  # noqa: BLE001
         return "!" + exc_name(e)
 
@@ -322,6 +330,14 @@ def sbt_members(t):
 
 
 def show_view(v, S, V, rownum):
+    """never raises: a collection damaged by an earlier call shows as `!<exception>` in the part that cannot be read"""
+    try:
+        return show_view_(v, S, V, rownum)
+    except Exception as e:  # noqa: BLE001
+        return kind_of(v) + ";!" + exc_name(e) + ";" + show_sigs(v)
+
+
+def show_view_(v, S, V, rownum):
     k = kind_of(v)
     if k == "linear":
         own = "m=" + ",".join(sref(S, x) for x in v._signatures)
@@ -331,6 +347,10 @@ def show_view(v, S, V, rownum):
         own = "db=" + vref(V, v.db) + ";sel=" + show_sel(v.selection_dict)
     elif k == "zipnm":
         own = "sel=" + show_sel(v.selection_dict)
+    elif k in ("sqlite", "lcasql"):
+        own = "sel=" + show_sel(v.manifest.selection_dict)
+    elif k == "sbtdisk":
+        own = "p=" + show_picks(v.picklists)
     elif k in ("zipm", "multi", "standalone"):
         items = []
         for row in v.manifest.rows:
@@ -417,6 +437,8 @@ def twice(fn):
         r1 = canon(fn())
     except Differs:
         return "err InputModified"
+    except ViewChanged:
+        return "err ViewChanged"
     except Exception as e1:  # noqa: BLE001
         try:
             fn()
@@ -427,6 +449,8 @@ def twice(fn):
             return "ok" if type(e1) is type(e2) else "err RepeatDiffers"
     try:
         r2 = canon(fn())
+    except ViewChanged:
+        return "err ViewChanged"
     except Exception:  # noqa: BLE001
         return "err RepeatDiffers"
     return "ok" if r1 == r2 else "err RepeatDiffers"
@@ -456,6 +480,48 @@ def sig_ro(name, sigs):
             m.add_hash(7)
             m.clear()
             out.append(sig_digest(x))
+        return out
+    if name == "insertinto":
+        # putting a signature INTO a collection / a manifest / a saver is a read-only call on the signature
+        import tempfile as _tf
+        out = []
+        td = new_tmp()
+        SAVE_N[0] += 1
+        from sourmash.save_load import SaveSignaturesToLocation as _S
+        for kind in ("linear", "sbt", "lca", "sqlite", "manifest", "zip", "sqldb", "sig"):
+            try:
+                if kind == "linear":
+                    c = LinearIndex()
+                    for x in sigs:
+                        c.insert(x)
+                    res = len(c)
+                elif kind == "sbt":
+                    c = create_sbt_index()
+                    for x in sigs:
+                        c.insert(x)
+                    res = len(list(c.signatures()))
+                elif kind == "lca":
+                    c = LCA_Database(21, sigs[0].minhash.scaled or 1, "DNA")
+                    res = [c.insert(x, ident=f"i{n}") for n, x in enumerate(sigs)]
+                elif kind == "sqlite":
+                    c = SqliteIndex.create(os.path.join(td, f"i{SAVE_N[0]}.sqldb"))
+                    SAVE_N[0] += 1
+                    for x in sigs:
+                        c.insert(x)
+                    res = len(c)
+                elif kind == "manifest":
+                    c = CollectionManifest.create_manifest((x, "loc") for x in sigs)
+                    res = len(c)
+                else:
+                    loc = os.path.join(td, f"i{SAVE_N[0]}." + kind)
+                    SAVE_N[0] += 1
+                    with _S(loc) as sv:
+                        for x in sigs:
+                            sv.add(x)
+                    res = len(sv)
+            except Exception as e:  # noqa: BLE001   (a refusal is fine, it must be repeatable)
+                res = "exc:" + type(e).__name__
+            out.append((kind, res))
         return out
     if name == "compare":
         from sourmash.compare import compare_all_pairs
@@ -504,7 +570,7 @@ SYNTAX = {
     "ssetstate": "hhnn", "sintofrozen": "h", "stomut": "hh", "stofrozen": "hh", "scopy": "hh", "spickle": "hh",
     "supdflat": "hh", "supdname": "hhn", "sgatherinit": "hh", "scg": "hh*", "sro": "w*", "vlinear": "h*",
     "vlazy": "hh", "vzip": "hb*", "vstandalone": "h*", "vmulti": "h*", "vsbt": "h*", "vlca": "h*", "vinsert": "hh",
-    "vsel": "hhK", "vselpick": "hhN", "vget": "hhh", "vro": "wh*",
+    "vsel": "hhK", "vselpick": "hhN", "vget": "hhh", "vro": "wh*", "vsbtload": "hhh*", "vsqlite": "h*", "vlcaload": "hh*",
 }
 
 
@@ -532,6 +598,81 @@ def check_syntax(op, a):
             name_tok(x)
     if tail == "K":
         parse_kw(rest)
+
+
+SAVE_N = [0]
+SAVES = ("save", "savefs", "savesig", "saveto0", "saveto1", "saveto2", "saveto3", "lcasave0", "lcasave1", "mfsave0", "mfsave1")
+
+
+def inner_state(v):
+    """the in-memory tables of the two collections that keep their own: an LCA_Database (values AND container types: a
+    set turned into a list answers the same but breaks the next insert) and an SBT (where every node lives)"""
+    if isinstance(v, LCA_Database):
+        return ("lca",
+                sorted((k, type(x).__name__, tuple(sorted(x))) for k, x in v._hashval_to_idx.items()),
+                type(v._hashval_to_idx).__name__,
+                sorted(v._ident_to_name.items()), sorted(v._ident_to_idx.items()), sorted(v._idx_to_lid.items()),
+                v._next_index, v._next_lid, v.scaled, v.ksize, v.moltype, len(v.picklists))
+    if isinstance(v, SBT):
+        return ("sbt", sorted((pos, type(n).__name__, n._path, type(n.storage).__name__,
+                               sorted((k, str(x)) for k, x in n.metadata.items()) if isinstance(n.metadata, dict) else "-")
+                              for pos, n in v if n is not None),
+                type(v.storage).__name__, len(v.picklists), v.next_node)
+    return None
+
+
+def observe(v, q):
+    """what a collection answers: its signatures, its size, and a containment search with q (when q is a flat scaled query)"""
+    sigs = sorted(sig_digest(x) for x in v.signatures())
+    n = (len(v), inner_state(v))
+    found = None
+    if q is not None and not q.minhash.track_abundance and q.minhash.scaled:
+        try:
+            found = sorted((r.score, sig_digest(r.signature)) for r in v.search(q, threshold=0.0, do_containment=True))
+        except Exception as e:  # noqa: BLE001
+            found = "exc:" + type(e).__name__
+    return sigs, n, found
+
+
+def do_save(name, v, td):
+    SAVE_N[0] += 1
+    base = os.path.join(td, f"out{SAVE_N[0]}")
+    if name == "save":          # SBT: zip storage
+        return v.save(base + ".sbt.zip")
+    if name == "savefs":        # SBT: .sbt.json + hidden directory (FSStorage)
+        return v.save(base + ".sbt.json")
+    if name == "savesig":       # LinearIndex.save
+        return v.save(base + ".sig")
+    if name.startswith("saveto"):
+        from sourmash.sourmash_args import SaveSignaturesToLocation
+        loc = base + [".zip", ".sig", "/", ".sqldb"][int(name[-1])]
+        with SaveSignaturesToLocation(loc) as sv:
+            for x in v.signatures():
+                sv.add(x)
+        return len(sv)
+    if name.startswith("lcasave"):
+        fmt = ["json", "sql"][int(name[-1])]
+        return v.save(base + (".lca.json" if fmt == "json" else ".lca.sqldb"), format=fmt)
+    if name.startswith("mfsave"):
+        fmt = ["csv", "sql"][int(name[-1])]
+        return v.manifest.write_to_filename(base + (".csv" if fmt == "csv" else ".mf.sqlmf"), database_format=fmt)
+    raise UnknownOp(name)
+
+
+def view_save(name, v, qs):
+    """a save is a read-only call on the collection it is given: same answers before and (twice) after"""
+    q = qs[0] if qs else None
+    before = observe(v, q)
+    td = new_tmp()
+    do_save(name, v, td)
+    for _ in range(2):
+        try:
+            after = observe(v, q)
+        except Exception as e:  # noqa: BLE001
+            raise ViewChanged(f"after {name}: {type(e).__name__}: {e}")
+        if after != before:
+            raise ViewChanged(f"after {name}")
+    return before
 
 
 def obj_op(op, a, T, S, V):
@@ -599,7 +740,7 @@ def obj_op(op, a, T, S, V):
         sigs = [S[i(h)] for h in a[1:]]
         if not sigs:
             raise UnknownOp("no operands")
-        if a[0] not in ("md5", "eq", "sim", "save", "pickle", "copies", "mhmut", "compare"):
+        if a[0] not in ("md5", "eq", "sim", "save", "pickle", "copies", "mhmut", "compare", "insertinto"):
             raise UnknownOp(a[0])
         return twice(lambda: sig_ro(a[0], sigs))
     elif op == "vlinear":
@@ -659,9 +800,52 @@ def obj_op(op, a, T, S, V):
             for x in sigs:
                 db.insert(x)
             V[i(a[0])] = db
+    elif op == "vsbtload":
+        sigs = [S[i(h)] for h in a[3:]]
+        if not sigs or i(a[1]) > 1 or not uniform_scaled(sigs[0].minhash._max_hash, sigs) \
+                or len({mins_of(x) for x in sigs}) != len(sigs):
+            raise UnknownOp("domain")
+        td = new_tmp()
+        t = create_sbt_index()
+        for x in sigs:
+            t.insert(x)
+        pth = os.path.join(td, "t.sbt.zip" if i(a[1]) == 0 else "t.sbt.json")
+        t.save(pth)
+        t2 = load_sbt_index(pth, cache_size=(i(a[2]) or None))
+        t2._own_disk = True
+        t2._own_scaled = sigs[0].minhash.scaled
+        V[i(a[0])] = t2
+    elif op == "vsqlite":
+        sigs = [S[i(h)] for h in a[1:]]
+        if not sigs or not uniform_scaled(sigs[0].minhash._max_hash, sigs) or len({mins_of(x) for x in sigs}) != len(sigs) \
+                or any(x.minhash.track_abundance for x in sigs):
+            raise UnknownOp("domain")
+        td = new_tmp()
+        from sourmash.sourmash_args import SaveSignaturesToLocation
+        pth = os.path.join(td, "c.sqldb")
+        with SaveSignaturesToLocation(pth) as sv:
+            for x in sigs:
+                sv.add(x)
+        V[i(a[0])] = sourmash.load_file_as_index(pth)
+    elif op == "vlcaload":
+        sigs = [S[i(h)] for h in a[2:]]
+        names = [x.name for x in sigs]
+        if not sigs or i(a[1]) > 1 or not uniform_scaled(sigs[0].minhash._max_hash, sigs) \
+                or not all(names) or len(set(names)) != len(names):
+            raise UnknownOp("domain")
+        td = new_tmp()
+        db = LCA_Database(21, sigs[0].minhash.scaled, "DNA")
+        for x in sigs:
+            db.insert(x)
+        fmt = ["json", "sql"][i(a[1])]
+        pth = os.path.join(td, "l.lca.json" if fmt == "json" else "l.lca.sqldb")
+        db.save(pth, format=fmt)
+        V[i(a[0])] = sourmash.load_file_as_index(pth)
     elif op == "vinsert":
         v, x = V[i(a[0])], S[i(a[1])]
         k = kind_of(v)
+        if k in ("sbtdisk", "sqlite"):
+            raise UnknownOp("domain")
         if k == "sbt" and (x.minhash.num != 0 or x.minhash.scaled != v._own_scaled):
             raise UnknownOp("domain")
         if k == "lca" and (x.minhash.num != 0 or x.minhash.scaled != v.scaled or not x.name):
@@ -675,7 +859,7 @@ def obj_op(op, a, T, S, V):
     elif op == "vselpick":
         v = V[i(a[1])]
         names = [name_tok(x) for x in a[2:]]
-        if kind_of(v) not in ("sbt", "lca"):
+        if kind_of(v) not in ("sbt", "lca", "sbtdisk"):
             raise UnknownOp("domain")
         pl = SignaturePicklist("name")
         pl.init(names)
@@ -683,7 +867,7 @@ def obj_op(op, a, T, S, V):
         V[i(a[0])] = x
     elif op == "vget":
         v = V[i(a[1])]
-        if kind_of(v) in ("sbt", "lca"):
+        if kind_of(v) in ("sbt", "lca", "sbtdisk", "lcasql"):
             raise UnknownOp("domain")
         got = list(v.signatures())
         if i(a[2]) >= len(got):
@@ -692,6 +876,8 @@ def obj_op(op, a, T, S, V):
     elif op == "vro":
         v = V[i(a[1])]
         qs = [S[i(h)] for h in a[2:]]
+        if a[0] in SAVES:
+            return twice(lambda: view_save(a[0], v, qs))
         if a[0] not in ("sigs", "locs", "manifest", "picklist", "search", "searchc", "prefetch", "best", "gather", "gatheri"):
             raise UnknownOp(a[0])
         return twice(lambda: view_ro(a[0], v, qs))
@@ -702,7 +888,8 @@ def obj_op(op, a, T, S, V):
 
 OBJ_OPS = {"snew", "smh", "ssetmh", "sname", "sfile", "saddseq", "saddprot", "ssetstate", "sintofrozen", "stomut",
            "stofrozen", "scopy", "spickle", "supdflat", "supdname", "sgatherinit", "scg", "sro", "vlinear", "vlazy",
-           "vzip", "vstandalone", "vmulti", "vsbt", "vlca", "vinsert", "vsel", "vselpick", "vget", "vro"}
+           "vzip", "vstandalone", "vmulti", "vsbt", "vlca", "vinsert", "vsel", "vselpick", "vget", "vro",
+           "vsbtload", "vsqlite", "vlcaload"}
 
 
 def main():
